@@ -44,14 +44,19 @@ RULE = ("(1) inversions: imaging datasets on random masks (densities 0.15-0.9, s
         "session or util case; distinct = distinct JSON input.")
 EXHAUSTIVE = {}
 TRUSTED = ["hand-written Gallina model coq/Model/C04.v (scatter loops, sequential symmetrisation / mirror / block assignments, running-index "
-           "walk of the preload, param ranges by running count) on top of the convolver model coq/Model/C03.v; tied to /repo by this "
-           "correspondence run (comparison evaluated inside Coq by vm_compute: exact for rectangular mappers / function lists with dyadic "
-           "diagonal term, relative tolerance 1e-9 where Delaunay interpolation weights or the default 1e-3 diagonal term make doubles inexact)",
-           "numpy: np.dot = sum of products, slice / block assignment, hstack, np.concatenate, .native zero-fills masked pixels (0/0 = NaN "
-           "exactly at masked pixels in w_tilde_data_imaging_from)",
+           "walk of the preload, param ranges by running count, the w_tilde object handed over separately with check_noise_map, the factory's "
+           "choice, heap cells for the cached curvature_matrix / curvature_reg_matrix arrays) on top of the convolver model coq/Model/C03.v; tied "
+           "to /repo by this correspondence run (comparison evaluated inside Coq by vm_compute: exact for rectangular mappers / function lists "
+           "with dyadic diagonal term; otherwise within 1e-9 of a rigorous bound on the sum of the absolute values of the terms of each entry -- "
+           "column scale x column scale x sum 1/sigma^2, + |eps| on a flagged diagonal entry, + |H| for curvature_reg_matrix (one extra rounding "
+           "2^-53 allowed there because the regularization matrix is not dyadic))",
+           "numpy: np.dot = sum of products, slice / block assignment, hstack, np.concatenate, np.add / += on arrays, .native zero-fills masked "
+           "pixels (0/0 = NaN exactly at masked pixels in w_tilde_data_imaging_from)",
            "a mapper enters as its mapping_matrix together with its unique-mapping encoding (that the encoding represents the matrix is "
-           "C06's theorem; here it is re-checked numerically on every generated mapper)",
-           "the reconstruction itself (np.linalg.solve / fnnls) is C05's; here it is an input of mapped_reconstructed_data"]
+           "C06's theorem; here it is re-checked numerically on every generated mapper); regularization_matrix enters the read sequences as an "
+           "input (C07 / C08)",
+           "the reconstruction itself (np.linalg.solve / fnnls) is C05's; here it is an input of mapped_reconstructed_data, and both formalisms "
+           "are proved to hand the same matrix and vector to it"]
 ASSUMPTIONS = ["real arithmetic (no rounding): theorems over R; correspondence exact or within 1e-9 relative to the scale of each entry",
                "kernel footprint of every unmasked pixel inside the frame (the property's quantifier); positive noise on unmasked pixels",
                "a w_tilde object handed over separately comes from an Imaging with the same mask, psf and noise map (a stale object that passes "
@@ -263,7 +268,7 @@ def gen_inputs(tier, rng):
             for o in objs: o["reg"] = o["reg"] and rng.random() < 0.5      # several unregularized objects
         eps = rng.choice([None, "1/1024", "1/2", "1/1024"])
         if ext in ("noise_huge", "psf_tiny"): eps = rng.choice([None, "1/1073741824"])
-        yield {"op": "inv", "ds": ds, "objs": objs, "eps": eps, "rseed": rng.randrange(10 ** 6), "ext": ext or colext}
+        yield {"op": "inv", "ds": ds, "objs": objs, "eps": eps, "rseed": rng.randrange(10 ** 6), "ext": ext or colext, "k": i}
     for i in range(n_sess):
         # a history in ONE process on shared objects: see run_sess
         while True:
@@ -517,6 +522,15 @@ def run_inv(aa, inp):
         b = dict(b, D=np.array(iw.data_vector), F=np.array(iw.curvature_matrix))
         terms.append(f"(KInv {hdr} {cqv(d)} {cqv(s)} {cobjs} true {cq(frac(st.no_regularization_add_to_curvature_diag_value))} {cq(tol)} "
                      f"{cqm(fm(iw.operated_mapping_matrix))} {cqv(fv(b['D']))} {cqm(fm(b['F']))})")
+    if inp.get("k", 0) % 3 == 0:
+        # the library's defaults: no settings / preloads argument, i.e. the SHARED default SettingsInversion() and Preloads() objects of
+        # the factory's signature (anything remembered in them is carried from one dataset of this process to the next)
+        invd = aa.Inversion(dataset=dataset, linear_obj_list=los)
+        epsd = frac(invd.settings.no_regularization_add_to_curvature_diag_value)
+        told = tol if all(o["reg"] for o in inp["objs"]) else Fraction(1, 10 ** 9)
+        terms.append(f"(KInv {hdr} {cqv(d)} {cqv(s)} {cobjs} {cbool(isinstance(invd, aa.InversionImagingWTilde))} {cq(epsd)} {cq(told)} "
+                     f"{cqm(fm(invd.operated_mapping_matrix))} {cqv(fv(invd.data_vector))} {cqm(fm(invd.curvature_matrix))})")
+        tally("default_settings_and_preloads")
     if ext in EXACT_EXTS:      # (with scaled columns the Coq comparison, which is relative to each column's scale, is the judge)
         for key in ("B", "D", "F", "mapped"):
             if not close(a[key], b[key]): py_ok = False; detail["formalisms_differ"] = key
